@@ -296,9 +296,16 @@ def run_case(case):
             out["sched"] = []
         else:
             from sched import run_threads
-            obs, ids = run_threads(case, Ctx, run_thread)
+            obs, ids, baton = run_threads(case, Ctx, run_thread)
             out["obs"], out["ids"] = obs, ids
-            out["sched"] = case["schedule"]
+            if case.get("micro"):
+                # micro mode: threads are frozen in the middle of machine steps; the schedule as executed = order in which steps ended
+                out["sched"] = list(baton.ends)
+                out["micro"] = {"frozen_mid_step": baton.frozen_mid_step, "ran_out_of_turn": baton.ran_out_of_turn}
+            else:
+                if baton.ends != list(case["schedule"])[:len(baton.ends)] and len(baton.ends) <= len(case["schedule"]):
+                    out["sched_mismatch"] = [list(case["schedule"]), list(baton.ends)]
+                out["sched"] = case["schedule"]
         out["top_drift"] = trace_stack.top - top0
     out["reg_ok"] = bool(reg0 is None or registries_ok(reg0, registries()))
     return out
